@@ -1,4 +1,5 @@
 import PedVerif.Props.C08
+import PedVerif.Props.CheckerIR
 open PedVerif.Checker
 #print axioms contained
 #print axioms outcome_is_return_or_pedantic
@@ -15,3 +16,13 @@ open PedVerif.Call
 #print axioms cfg_instanceMethod
 #print axioms bound_is_not_instance_method
 #print axioms wrapper_adds_nothing_bound_method
+-- the translated `_check_type` / `_is_instance` (Gen/IsInstanceIR.lean), interpreted, is the model the theorems above are about
+#print axioms PedVerif.CheckerIR.ir_refines
+#print axioms PedVerif.CheckerIR.checkType_ir_refines
+#print axioms PedVerif.CheckerIR.ir_contained
+#print axioms PedVerif.CheckerIR.ir_total
+-- the same obligations about the statement-by-statement translation of check_types.py (Gen/IsInstanceIR.lean, interpreted by Model/CheckerIR.lean)
+#print axioms PedVerif.CheckerIR.ir_refines
+#print axioms PedVerif.CheckerIR.checkType_ir_refines
+#print axioms PedVerif.CheckerIR.ir_contained
+#print axioms PedVerif.CheckerIR.ir_total
